@@ -3,13 +3,14 @@ EXTENDS Yaqlization
 CONSTANTS MaxList, SwitchSets
 MCNames == {"pub", "pub2", "_priv", "__dunder__", "src", "dst", "listed"}
 MCPrivate == {"_priv", "__dunder__"}
-MCEntries == {"E1", "E2", "E3", "E4", "E5"}
+MCEntries == {"E1", "E2", "E3", "E4", "E5", "E6"}
 MCMatches == [e \in MCEntries |->
     CASE e = "E1" -> {"pub"}                        \* string entry "pub"
       [] e = "E2" -> {"pub", "pub2", "_priv"}       \* regex "p" (search semantics)
       [] e = "E3" -> {"listed", "dst"}              \* predicate
       [] e = "E4" -> {"src"}                        \* string entry "src"
-      [] e = "E5" -> {"_priv", "__dunder__"}]       \* regex "^_"
+      [] e = "E5" -> {"_priv", "__dunder__"}        \* regex "^_"
+      [] e = "E6" -> {"pub", "pub2"}]               \* regex "ub" - search semantics: matches in the middle of a name
 Lists == {x \in SUBSET MCEntries : Cardinality(x) <= MaxList}
 Settings == {s \in [attrs : BOOLEAN, methods : BOOLEAN, indexer : BOOLEAN, wl : Lists, bl : Lists, remap : BOOLEAN, blr : BOOLEAN] :
                 <<s.attrs, s.methods, s.indexer>> \in SwitchSets /\ (~s.remap => s.blr)}
